@@ -627,9 +627,10 @@ def rf93(run):
     for x in f.walk():
         if x['k'] == 'CallExpr' and x.get('callee') == 'fprintf' and any(y['k'] == 'StringLiteral' and '/*' in y['s'] for y in F.walk(x)):
             opens.append(x)
-    if not opens:
-        raise F.AnalysisBroken('_MIR_output_data_item_els: the C comment opener was not found')
     n = 0
+    if not opens:
+        run.ob(rule, ('no comment',), True, {'C comment printed': False})
+        return 1
     for x in opens:
         guard = None
         cur = x['i']
@@ -651,4 +652,50 @@ def rf93(run):
             run.violation(rule, f, 'string bytes inside a C comment', 'the string form of the data is printed between `/*` and `*/` without a test '
                           'that it does not contain `*/`: a data string such as "a*/b" closes the comment and the C compiler rejects (or worse, '
                           'compiles) the remainder', line=x['l'])
+    return n
+
+
+# ---------------------------------------------------------------------------------------------
+# RF95: the element printer gives one scalar initialiser per element
+# ---------------------------------------------------------------------------------------------
+
+def rf95(run):
+    import re
+    from lib import printexec as PE
+    rule = 'RF95'
+    run.rule(rule, '_MIR_output_data_item_els in C mode, executed abstractly for i64 and u8 data of 1, 2 and 3 elements (the u8 ones ending in a '
+                   'zero byte): it prints exactly nel scalar initialisers separated by commas, optionally followed by a comment.  mir2c '
+                   'declares a one-element item as a scalar `T x = …` and a longer one as `T x[n] = {…}` around this text; any other form '
+                   '(e.g. a string literal) initialises a scalar with a pointer')
+    tu = run.tu('mir')
+    f = tu.func('_MIR_output_data_item_els')
+    run.functions_analysed.add(('mir', f.name))
+    ty = dict(tu.enum('MIR_type_t'))
+    n = 0
+    for tname in ('MIR_T_I64', 'MIR_T_U8'):
+        for nel in (1, 2, 3):
+            heap = {1: {'->u.data': 2, '->item_type': dict(tu.enum('MIR_item_type_t'))['MIR_data_item']},
+                    2: {'->nel': nel, '->el_type': ty[tname]}}
+            for i in range(nel):
+                heap[2]['->u.els[%d]' % i] = 0 if i == nel - 1 else 65
+            env = {'item': 1, 'c_p': 1}
+            ex = PE.PrintExec(tu, heap, {'strstr': lambda a, e, x: 0}, {'MIR_output_str': lambda a, e, x: 'S'})
+            try:
+                ex.run(f.body, env)
+            except F.AnalysisBroken as exn:
+                raise F.AnalysisBroken('_MIR_output_data_item_els (%s x %d): %s' % (tname, nel, exn))
+            txt = ex.text()
+            body = re.sub(r'/\*.*?\*/', '', txt).strip()
+            parts = [p_.strip() for p_ in body.split(',')] if body else []
+            n += 1
+            ok = len(parts) == nel and all(re.fullmatch(r'(0x)?9[a-zA-Z]*', p_) for p_ in parts)
+            # `uint8_t x[n] = {"…"}` is valid C for an array of a character type; a scalar cannot take a string literal
+            if not ok and nel >= 2 and tname == 'MIR_T_U8' and body == 'S':
+                ok = True
+            run.ob(rule, (tname, nel), ok, {'element type': tname, 'elements': nel, 'printed': txt[:80]})
+            if not ok:
+                run.violation(rule, f, '%s data of %d element(s)' % (tname[6:].lower(), nel), 'for %s data of %d element(s) the C form printed is `%s` '
+                              'instead of %d comma-separated scalar initialisers: mir2c wraps it as `T x%s = %s…%s;`, which the C compiler '
+                              'rejects or initialises wrongly (a one-element u8 item holding 0 becomes `uint8_t x = "";`)'
+                              % (tname, nel, txt[:60], nel, '' if nel == 1 else '[%d]' % nel, '' if nel == 1 else '{', '' if nel == 1 else '}'), line=f.line)
     return n
